@@ -283,3 +283,18 @@ func marshalReps(reps []Rep) []byte {
 	}
 	return b
 }
+
+func runRateCase(c *Case) string {
+	ts := make([]string, len(c.Times))
+	for i, t := range c.Times {
+		ts[i] = cZ(t)
+	}
+	pm := make([]string, len(c.PerMsg))
+	for i, n := range c.PerMsg {
+		if n < 0 {
+			n = 0
+		}
+		pm[i] = lib.N(uint64(n))
+	}
+	return lib.App("CRate", lib.List(ts), lib.List(pm))
+}
